@@ -482,7 +482,8 @@ def mutate_everything(style):
         n += 1
     if style.model3d.data:
         style.model3d.data.append(style.model3d.data[0])
-    return n
+    style.model3d.add_trace(backend="generic", constructor="Scatter3d", kwargs={"x": [5], "y": [5], "z": [5]}, show=False)
+    return n + 1
 
 
 def shared_mutables(a, b):
@@ -510,16 +511,35 @@ def check_style_copy(task):
                 o.style.model3d.add_trace(backend="matplotlib", constructor="plot", args=([0, 1], [0, 1], [0, 1]),
                                           kwargs={"ls": "--"}, show=False)
             return o
-        for how in ("style.copy", "get_style", "obj.copy.style"):
+        def derive(o, how):
+            """a second style that starts out with the values of o's style"""
+            if how == "style.copy":
+                return o.style.copy()
+            if how == "get_style":
+                return get_style(o, DS())
+            if how == "obj.copy.style":
+                return o.copy().style
+            if how == "ctor_as_dict":
+                return FAMILIES[fam](style=o.style.as_dict()).style
+            if how == "setter_as_dict":
+                b = FAMILIES[fam]()
+                b.style = o.style.as_dict()
+                return b.style
+            if how == "update_as_dict":
+                b = FAMILIES[fam]()
+                b.style.update(o.style.as_dict())
+                return b.style
+            if how == "same_data_list":   # the same user list of traces given to two objects
+                b = FAMILIES[fam]()
+                b.style.model3d.data = o.style.model3d.data
+                return b.style
+            raise AssertionError(how)
+
+        for how in ("style.copy", "get_style", "obj.copy.style", "ctor_as_dict", "setter_as_dict", "update_as_dict", "same_data_list"):
             o = mk()
             before = norm(o.style.as_dict())
             dbefore = norm(lin(DS().as_dict()))
-            if how == "style.copy":
-                cp = o.style.copy()
-            elif how == "get_style":
-                cp = get_style(o, DS())
-            else:
-                cp = o.copy().style
+            cp = derive(o, how)
             sh = shared_mutables(cp, o.style)
             if sh:
                 viols.append((f"style-copy-shares-objects:{how}:{variant}", [fam, how, variant], f"{sh[:3]}"))
@@ -530,7 +550,7 @@ def check_style_copy(task):
                 viols.append((f"style-copy-leaks-to-defaults:{how}:{variant}", [fam, how, variant], ""))
             # and the other direction
             o = mk()
-            cp = o.style.copy() if how == "style.copy" else (get_style(o, DS()) if how == "get_style" else o.copy().style)
+            cp = derive(o, how)
             sig_cp = norm(cp.as_dict())
             n += mutate_everything(o.style)
             if norm(cp.as_dict()) != sig_cp:
